@@ -205,6 +205,16 @@ pub fn run(data: &[u8], ctx: &mut Ctx) -> Outcome {
             check!(ctx, r.is_err(), "malformed", &key, "attachments() succeeded although a malformed attachment assertion ({}) is present", names[kind]);
             let r2 = nopanic!(ctx, with_bad.attachments_with_vendor_and_conforms_to(Some(a0.vendor), None), "malformed", &key);
             check!(ctx, r2.is_err(), "malformed", &key, "filtered attachments succeeded although a malformed attachment assertion ({}) is present", names[kind]);
+            // "Returns an error if any of the envelope's attachments are invalid": whatever the filter is,
+            // also one that the malformed attachment's readable vendor / conformsTo does not match
+            for v in [None, Some(VENDORS[0]), Some(VENDORS[1]), Some(VENDORS[2]), Some(VENDORS[3]), Some("vendor.absent")] {
+                for c in [None, CONFORMS[1], CONFORMS[2], CONFORMS[3], Some("conf.absent")] {
+                    let r = nopanic!(ctx, with_bad.attachments_with_vendor_and_conforms_to(v, c), "malformed", &key);
+                    check!(ctx, r.is_err(), "malformed", &format!("{}/filtered", key), "attachments_with_vendor_and_conforms_to({:?}, {:?}) succeeded although a malformed attachment assertion ({}) is present", v, c, names[kind]);
+                    let r = nopanic!(ctx, with_bad.attachment_with_vendor_and_conforms_to(v, c), "malformed", &key);
+                    check!(ctx, r.is_err(), "malformed", &format!("{}/filtered", key), "attachment_with_vendor_and_conforms_to({:?}, {:?}) succeeded although a malformed attachment assertion ({}) is present", v, c, names[kind]);
+                }
+            }
             let r3 = nopanic!(ctx, bad.validate_attachment(), "malformed", &key);
             check!(ctx, r3.is_err(), "malformed", &key, "validate_attachment accepted a malformed attachment ({})", names[kind]);
             let r4 = nopanic!(ctx, Attachments::try_from_envelope(&with_bad), "malformed", &key);
@@ -278,6 +288,32 @@ pub fn run(data: &[u8], ctx: &mut Ctx) -> Outcome {
     let both = nopanic!(ctx, e.add_type(KnownValue::new(200)), "types", "C19/types");
     let r = nopanic!(ctx, both.attachments(), "types", "C19/types");
     check!(ctx, matches!(&r, Ok(x) if x.len() == want_all.len()) && both.has_type(&KnownValue::new(200)), "types", "C19/types/independent", "types and attachments interfere");
+    // --- a type whose 'isA' assertion carries assertions of its own (salted add, or a note on the
+    // assertion): it is a type of the envelope like any other (drawn last)
+    if src.chance(60) {
+        let name = format!("DecoratedType{}", src.below(3));
+        let route = src.below(2);
+        let t2 = if route == 0 {
+            nopanic!(ctx, t.add_assertion_salted(known_values::IS_A, name.as_str(), true), "types", "C19/types/decorated")
+        } else {
+            let a = Envelope::new_assertion(known_values::IS_A, name.as_str()).add_assertion(known_values::NOTE, "why this type");
+            tryp!(ctx, nopanic!(ctx, t.add_assertion_envelope(a), "types", "C19/types/decorated").map_err(|x| x.to_string()), "types", "C19/types/decorated")
+        };
+        ctx.class(["type-added-salted", "type-added-with-note"][route]);
+        let mut want = type_digests.clone();
+        want.insert(M::text(&name).digest());
+        let types = nopanic!(ctx, t2.types(), "types", "C19/types/decorated");
+        let td: BTreeSet<D32> = types.iter().map(|x| d32(&x.digest())).collect();
+        check!(ctx, td == want && types.len() == want.len(), "types", "C19/types/decorated", "types() returned {} types, {} distinct were added (one of them through an 'isA' assertion that carries its own assertions)", types.len(), want.len());
+        check!(ctx, t2.has_type_envelope(name.as_str()) && t2.check_type_envelope(name.as_str()).is_ok(), "types", "C19/types/decorated", "has_type_envelope is false for a type whose 'isA' assertion carries assertions");
+        let gt = nopanic!(ctx, t2.get_type(), "types", "C19/types/decorated");
+        check!(ctx, gt.is_ok() == (want.len() == 1), "types", "C19/types/decorated", "get_type() is {} with {} types", if gt.is_ok() { "Ok" } else { "Err" }, want.len());
+        for v in [200u64, 9] {
+            let kv = KnownValue::new(v);
+            check!(ctx, t2.has_type(&kv) == added_known.contains(&v), "types", "C19/types/decorated", "has_type('{}') changed by a decorated type assertion", v);
+        }
+        ctx.nontrivial = true;
+    }
     if interesting || type_digests.len() >= 2 {
         ctx.nontrivial = true;
     }
